@@ -291,6 +291,24 @@ impl World {
         rep
     }
 
+    /// A backup that its caller stops: the change callback fails at its `after`-th call. Like a
+    /// killed backup it must not leave a version that counts as complete.
+    pub fn backup_stopped_by_caller(&mut self, o: Opts, after: usize) -> StepReport {
+        let mut rep = self.report(StepKind::Interrupted, format!("backup {} stopped by its caller at entry {after} (change callback fails)", o.label()));
+        let before_ids: BTreeSet<u32> = self.raw(false).bands.keys().copied().collect();
+        let out = cs::backup_stopped_by_caller(cs::local(&self.arch), &self.src, o, after);
+        rep.backup_opts = Some(o);
+        rep.crash = Some((after, after + 1, false));
+        let after_raw = self.raw(false);
+        rep.new_band = after_raw.bands.iter().filter(|(id, b)| !before_ids.contains(id) && b.head_raw.is_some()).map(|(id, _)| *id).max();
+        if let Some(b) = rep.new_band {
+            self.sources.insert(b, self.snap.clone());
+        }
+        rep.backup = Some(out);
+        self.steps_done += 1;
+        rep
+    }
+
     /// delete_bands(ids) (ids empty = gc), logged.
     pub fn delete(&mut self, ids: &[u32], dry_run: bool) -> StepReport {
         let kind = if ids.is_empty() { StepKind::Gc } else { StepKind::Delete };
